@@ -75,6 +75,18 @@ def handle : DrvHandler := fun op args =>
         | _ => none
       some (ok (Json.mkObj [("needs_change", .bool s.needsChange), ("parent", .bool (invocableS p i)),
                             ("sub_gate", .bool (gateS s (detect i))), ("sub", .bool (subInvocable p s i))]))
+  -- ["C05.subRC", parent, "inherit"|"plain", In, mustBlock] → the same through `process_resource_causes`
+  | "C05.subRC", [p, how, i, mb] => do
+      let p ← shapeOf? p
+      let i ← inOf? i
+      let mb ← jBool? mb
+      let s ← match ← jStr? how with
+        | "inherit" => some (subOf p)
+        | "plain" => some plainSub
+        | _ => none
+      some (ok (Json.mkObj [("needs_change", .bool s.needsChange), ("parent", .bool (invocableRC p i mb)),
+                            ("sub_gate", .bool (gateS s (detect i))), ("sub", .bool (subInvocableRC p s i mb)),
+                            ("finalizer_cycle", .bool (finalizerCycle i mb))]))
   | _, _ => none
 
 end Kopf.Drv.C05
